@@ -5,7 +5,7 @@ import ast
 
 from ..model import CFG
 from .common import site_of
-from . import counters
+from . import counters, eqsym
 from .flow import (Oblig, calls, events, deps_of, arg_deps, facts_on_path, has_fact, check_escapes, SELF, P)
 
 CYK = "pyformlang.cfg.cyk_table.CYKTable"
@@ -119,6 +119,8 @@ def run(eng, rep, tier):
     # -------------------------------------------------------------- C08.5 the empty word: one counter per production
     counters.check_setup(ob, prog, prog.method("CFG", "_set_impacts_and_remaining_lists"), "C08.5")
     counters.check_consumer(ob, prog, prog.method("CFG", "generate_epsilon"), "C08.5")
+    # -------------------------------------------------------------- C08.6 symbols compare symmetrically
+    eqsym.check(eng, ob, "C08.6", "pyformlang.cfg.cfg_object.CFGObject")
     check_escapes(ob, "R6", "C08.4", fi, summ, set(), "CFG.contains")
     ob.decide("R6", "C08.4", fi, "no-explicit-raise", True, "no undocumented explicit raise escapes contains", "", summ)
     rep.stats.update(eng.stats())
